@@ -230,6 +230,12 @@ def bound_names(repo, cls, fn_node):
                 for x in ast.walk(g.iter):
                     if isinstance(x, ast.Attribute) and is_name(x.value, "self"):
                         fields.add(x.attr)
+        elif isinstance(n, ast.Call) and is_name(n.func, "dict") and len(n.args) == 1 and isinstance(n.args[0], (ast.GeneratorExp, ast.ListComp)):
+            # dict(<pair> for a in self.<field>): the namespace keys come from the items of the field
+            for g in n.args[0].generators:
+                for x in ast.walk(g.iter):
+                    if isinstance(x, ast.Attribute) and is_name(x.value, "self"):
+                        fields.add(x.attr)
         elif isinstance(n, ast.Assign) and isinstance(n.targets[0], ast.Subscript) and isinstance(n.targets[0].value, ast.Name):
             key(n.targets[0].slice)
         elif isinstance(n, ast.Call) and callee_name(n) in ("assign", "increment", "decrement") and n.args:
